@@ -82,8 +82,10 @@ class _RProc:
 
 
 class Reference:
-    def __init__(self, program: dict, exact_overshoot: bool = False):
+    def __init__(self, program: dict, exact_overshoot: bool = False, initial_futures: dict | None = None):
         self.p = program
+        self._initial_futures = initial_futures or {}
+        self.n_parked = 0  # processes currently parked on a (named or composite) future
         self.end_ns = program.get("end_ns")
         self.table = program["table"]
         self.heap: list = []
@@ -144,6 +146,10 @@ class Reference:
         f = self.futures.get(name)
         if f is None:
             f = self.futures[name] = _RFuture()
+            init = self._initial_futures.get(name)
+            if init is not None and init[0]:
+                # the future object survived an earlier run of the same model and was resolved there
+                f.resolved, f.value = True, init[1]
         return f
 
     def _stat(self, k):
@@ -166,6 +172,7 @@ class Reference:
     def _resume_parked(self, f: _RFuture):
         proc = f.parked
         f.parked = None
+        self.n_parked -= 1
         cont = {"kind": "cont", "seq": self.seq, "t": self.now, "proc": proc, "send": f.value, "daemon": proc.daemon, "cancelled": False}
         self.seq += 1
         self._push(cont)
@@ -253,6 +260,7 @@ class Reference:
                 if f.parked is not None and not f.resolved:
                     raise InvalidProgram("two processes parked on one future")
                 f.parked = proc
+                self.n_parked += 1
                 if f.resolved:
                     self._resume_parked(f)
                 return []
@@ -480,6 +488,9 @@ class RealRun:
 
     @staticmethod
     def _style(events, style):
+        if style == "iter":
+            # any iterable is accepted where a list of events is: here a one-shot generator expression
+            return (e for e in list(events))
         if style == "single" and len(events) == 1:
             return events[0]
         if style == "none" and not events:
@@ -614,7 +625,7 @@ class RealRun:
             # the same horizon expressed as duration=<float seconds> (only when the float names exactly this nanosecond)
             kw["duration"] = (end - start) / NS
         else:
-            kw["end_time"] = Instant(end) if end is not None else None
+            kw["end_time"] = Instant(end) if end is not None else (Instant.Infinity if self.p.get("explicit_infinity") else None)
         self.sim = Simulation(entities=list(self.entities), **kw)
         self.clock = self.sim._clock
         for i in range(n_before, len(pre)):
